@@ -400,7 +400,7 @@ def correspondence(ctx):
 
     # --- 5. deterministic calibration: grid run of DirectSimulation vs exact failure probability
     s = Stream('calibration-grid')
-    for case in calibration_cases(ctx.thorough, deep=False):
+    for case in calibration_cases(ctx.thorough, deep=False, heavy=ctx.thorough):
         res = run_grid(case)
         if res is None:
             ctx.notes.append(f'calibration case skipped (decoder not a function of the syndrome): {case}')
@@ -415,7 +415,7 @@ def correspondence(ctx):
 
 # ------------------------------------------------------------- calibration
 
-def calibration_cases(thorough, deep):
+def calibration_cases(thorough, deep, heavy=False):
     """(code, size, decoder, channel on a grid of M points). Probabilities are multiples of 1/M."""
     cases = []
 
@@ -436,14 +436,11 @@ def calibration_cases(thorough, deep):
         add('Planar2DCode', (2, 2), 'BeliefPropagationOSDDecoder', ['1/4', '1/4', '1/2'], '1', 4, dparams=bp)
         add('RotatedPlanar2DCode', (2, 3), 'MatchingDecoder', ['1/2', '1/2', '0'], '1/2', 4)
         add('RotatedPlanar2DCode', (3, 2), 'MatchingDecoder', ['0', '1/2', '1/2'], '1/2', 4, ndeform='XZZX')
-        if thorough:
-            add('Toric2DCode', (2, 2), 'MatchingDecoder', ['1', '0', '0'], '1/4', 4)
-        else:
-            add('Toric2DCode', (2, 2), 'MatchingDecoder', ['1', '0', '0'], '1/2', 2)
+        add('Toric2DCode', (2, 2), 'MatchingDecoder', ['1', '0', '0'], '1/2', 2)
         add('Toric2DCode', (2, 2), 'UnionFindDecoder', ['0', '0', '1'], '1/2', 2)
         add('RotatedPlanar2DCode', (3, 3), 'MatchingDecoder', ['1/2', '0', '1/2'], '1', 2)
         add('RotatedPlanar2DCode', (3, 3), 'MatchingDecoder', ['0', '1', '0'], '1/2', 2, ndeform='XZZX')
-    if thorough:
+    if heavy:        # 4^8 = 65536 trials (n = 8), about 2 minutes
         add('Toric2DCode', (2, 2), 'MatchingDecoder', ['1/2', '1/2', '0'], '1/2', 4, ndeform='XZZX')
     return cases
 
